@@ -18,6 +18,36 @@ def macro_names(n):
     return out
 
 
+def first_only(rep, fb):
+    SETS = ('completion', 'target', 'ancestors')
+    n_uses = 0
+    f = fb.fn('uscxml::LargeMicroStep::step')
+    for n in f.walk():
+        if n['k'] != 'CXXMemberCallExpr' or not n.get('c') or not n['c'][0].get('c'):
+            continue
+        m = n.get('callee', {}).get('q', '').split('::')[-1]
+        if m not in ('begin', 'front', 'cbegin', 'rbegin', 'back'):
+            continue
+        obj = strip(n['c'][0]['c'][0])
+        if obj is None or obj['k'] != 'MemberExpr' or obj.get('ref', {}).get('name') not in SETS:
+            continue
+        n_uses += 1
+        bad = None
+        if m in ('front', 'back'):
+            bad = '%s() takes one element' % m
+        else:
+            # *x.begin()  /  (*x.begin())->...
+            p = f.parent(n)
+            while p is not None and p['k'] in facts.TRANSPARENT:
+                p = f.parent(p)
+            if p is not None and ((p['k'] == 'UnaryOperator' and p.get('op') == '*') or (p['k'] == 'CXXOperatorCallExpr' and p.get('op') in ('*', '->'))):
+                # an iterator that is advanced in a loop is declared first; a direct dereference of begin() is a first-only use
+                bad = 'begin() is dereferenced directly'
+        rep.check(bad is None, 'R02.11', 'LargeMicroStep|%s.%s#%d' % (obj['ref']['name'], m, sum(1 for x in f.walk() if x['k'] == 'CXXMemberCallExpr' and x['loc'][1] < n['loc'][1] and x.get('callee', {}).get('q', '').endswith('::' + m))),
+                  locstr(n), 'use of the set `%s` through %s(): %s' % (fb.text(obj)[:40], m, 'whole-range use' if bad is None else bad + ': only the first of possibly several states is considered'))
+    rep.minimum('R02.11', n_uses, 6, 'begin()/front() uses of completion / target / ancestors in LargeMicroStep::step')
+
+
 def comparator_keys(rep, fb):
     import re
     cls = 'uscxml::LargeMicroStep'
@@ -76,11 +106,17 @@ def run(rep, tier):
     rep.rule('R02.8', 'pre-emption agrees with the exit sets: overlap tests on the closed exit intervals use non-strict comparisons')
     rep.rule('R02.7', 'history only names simultaneously active states: the history update is conditioned on membership in the configuration and precedes every configuration erase of the step (phase protocol)')
     rep.rule('R02.9', 'ordered views keep every member: the comparator of each ordered set of states / transitions orders by at least one key that is unique per element (a key that several elements share, e.g. "no transitions = largest value", makes the set treat them as one member: inserts are dropped, erase removes the wrong state)')
+    rep.rule('R02.10', 'exit sets follow the transition domain: the engines\' getTransitionDomain has the specified quantifier shape (same rule as C01 R01.11)')
+    rep.rule('R02.11', 'set-valued relations are used as sets: inside step() the completion / target / ancestor sets of a state or transition are only used whole (range-for, begin()..end() pair, whole-container copy), never through their first element alone')
     rep.assume('legality for every chart and history needs the values of the entry set: not decided')
     fb = facts.FactBase(facts.library_tus())
     ex = exc.ExcFlow(fb, infeasible=set(INFEASIBLE))
     rep.covered(tus=len(fb.tus), extracted=fb.extracted, functions=len(fb.funcs))
     comparator_keys(rep, fb)
+    from . import _domain
+    for cls, tag in (('uscxml::LargeMicroStep', 'LargeMicroStep'), ('uscxml::FastMicroStep', 'FastMicroStep')):
+        _domain.check(rep, 'R02.10', fb, [fb.fn(cls + '::getTransitionDomain')], tag)
+    first_only(rep, fb)
     for eq in ENGINES:
         sk = _skel.Skeleton(fb, ex, eq)
         f, g, eng, cls = sk.f, sk.g, sk.eng, sk.cls
